@@ -19,6 +19,7 @@
     translate_format_id_brackets msg_identity_brackets msg_identity_elem_brackets brackets_of_clean
     placeholder_text_straddles msg_element_first_child_mismatch
     code_call_reported code_literal_call_reported code_reported_is_call code_reported_exactly nested_call_was_missed
+    code_call_sites_extracted code_list_is_call_sites
 -/
 import Genshi.Lemmas.I18nTree
 import Genshi.Lemmas.I18nStarts
@@ -32,6 +33,7 @@ import Genshi.Lemmas.I18nCode
 import Genshi.Lemmas.I18nPyExpr
 import Genshi.Lemmas.I18nPassEq
 import Genshi.Lemmas.I18nPassReorder
+import Genshi.Lemmas.I18nPyStream
 import Genshi.Model.I18nExtract
 namespace Genshi.Props.C19
 open Genshi Genshi.I18n
@@ -398,6 +400,61 @@ theorem nested_call_was_missed :
       [⟨['n','g','e','t','t','e','x','t'], .many [some ['o','n','e'], some ['m','a','n','y'], none]⟩,
        ⟨['_'], .one (some ['U','n','k','n','o','w','n'])⟩] :=
   Genshi.I18n.nested_call_was_missed
+
+/-! ### composition: the call sites of template code (wave 4)
+
+`PStream` (`Model/I18nPyStream.lean`) is the template stream with the syntax tree (`PyExpr`) in the
+place of every piece of code — EXPR / EXEC events, expressions inside interpolated attribute
+values; `extractP cfg gf s` is `Translator(cfg…).extract(stream, gettext_functions=gf)`: where
+`Translator.extract` meets code it calls `extract_from_code(code, gettext_functions)` (`lowerList`).
+Tie: correspondence stream `extractp` (the harness sends the trees genshi built, `code.ast`, and
+the `gettext_functions` argument; nothing the real `extract_from_code` computed reaches the model). -/
+
+/-- **every gettext call site of the template code is extracted**, for every configuration and every
+    `gettext_functions` argument `gf`: extraction returns, and for every piece of code `e` of the
+    template (`codeExprs`: EXPR / EXEC events at any depth of directive nesting, interpolated
+    attribute values of all elements — excluded ones included —, expressions and attributes inside
+    the content of a plain `i18n:msg`) and every call `f(args…, kw=…)` of a plain name `f ∈ gf`
+    occurring ANYWHERE in `e` (nested in the arguments of another gettext call, in a keyword value, in
+    any other syntax), the message `(f, strings, [])` is extracted, where `strings` has one entry per
+    POSITIONAL argument (the text of a string / utf-8 bytes literal, `None` for a non-literal; a single
+    entry bare, otherwise a tuple: `argVal`); keyword arguments contribute no entry. -/
+theorem code_call_sites_extracted (cfg : Cfg) (gf : List Str) (s : PStream)
+    (h : okMsgList (lowerList gf s) = true) :
+    ∃ ms, extractP cfg gf s = .ok ms ∧
+      ∀ e ∈ codeExprs s, ∀ (f : Str) (args kws : List PyExpr),
+        SubExpr (.call (.name f) args kws) e → f ∈ gf → (⟨some f, argVal args, []⟩ : Message) ∈ ms :=
+  Genshi.I18n.code_call_sites_extracted cfg gf s h
+
+/-- what the code contributes to the extracted messages is exactly the report of its call sites, in
+    source order: `codeList` of the stream `Translator.extract` works on = the gettext calls
+    (`gettextCalls`: calls of a plain name in `gf`, pre-order, at any depth) of every piece of code -/
+theorem code_list_is_call_sites (cfg : Cfg) (gf : List Str) (s : PStream) :
+    codeList cfg (lowerList gf s) = (codeExprs s).flatMap fun e => (gettextCalls gf e).map callReport :=
+  Genshi.I18n.codeList_lower_calls cfg gf s
+
+/-- `<p i18n:msg="n">Hi ${ngettext('a', 'b', len(_('U')))}</p><script type="${tr(x, k=_('A'))}">${_(s1)}</script>`
+    with `gettext_functions = ('_', 'ngettext')`: the stream is one the theorem speaks about; the
+    pieces of code are the three expressions; the nested `_('U')`, the `_('A')` in a keyword value
+    and the non-literal `_(s1)` are call sites, reported as `'U'`, `'A'` and `None` -/
+example :
+    let gf : List Str := [['_'], ['n','g','e','t','t','e','x','t']]
+    let e1 : PyExpr := .call (.name ['n','g','e','t','t','e','x','t'])
+        [.str ['a'], .str ['b'], .call (.name ['l','e','n']) [.call (.name ['_']) [.str ['U']] []] []] []
+    let e2 : PyExpr := .call (.name ['t','r']) [.name ['x']] [.call (.name ['_']) [.str ['A']] []]
+    let e3 : PyExpr := .call (.name ['_']) [.name ['s','1']] []
+    let s : PStream :=
+      [.sub [.msg [['n']]] [.start ⟨[], ['p']⟩ [], .text ['H','i',' '], .expr 0 e1, .end_ ⟨[], ['p']⟩],
+       .start ⟨[], ['s','c','r','i','p','t']⟩ [(⟨[], ['t','y','p','e']⟩, .parts [.expr e2])],
+       .expr 1 e3, .end_ ⟨[], ['s','c','r','i','p','t']⟩]
+    okMsgList (lowerList gf s) = true ∧ codeExprs s = [e1, e2, e3] ∧
+    extractP Cfg.default gf s = .ok
+      [⟨some ['n','g','e','t','t','e','x','t'], .many [some ['a'], some ['b'], none], []⟩,
+       ⟨some ['_'], .one (some ['U']), []⟩,
+       ⟨none, .one (some ['H','i',' ','%','(','n',')','s']), []⟩,
+       ⟨some ['_'], .one (some ['A']), []⟩,
+       ⟨some ['_'], .one none, []⟩] := by
+  refine ⟨by decide +kernel, rfl, by decide +kernel⟩
 
 /-- **lookups_subset_extract, message directives.**  For `<t i18n:msg="ps">content</t>` whose
     content holds no nested directive — any events otherwise, any catalogue, context and skip
